@@ -34,8 +34,22 @@ struct CountBody {
     inner: ScriptBody<InnerErr>,
     polls: Arc<AtomicUsize>,
     ends: Arc<AtomicUsize>,
+    /// how `is_end_stream` answers: 0 never, 1 once the script is exhausted, 2 once no data is left
+    eos_mode: u8,
+}
+impl CountBody {
+    fn eos(&self) -> bool {
+        match self.eos_mode {
+            1 => self.inner.evs.is_empty(),
+            2 => !self.inner.evs.iter().any(|e| matches!(e, Ev::Data(_))),
+            _ => false,
+        }
+    }
 }
 impl HttpBody for CountBody {
+    fn is_end_stream(&self) -> bool {
+        self.eos()
+    }
     type Data = Bytes;
     type Error = InnerErr;
     fn poll_frame(
@@ -133,6 +147,7 @@ impl Item {
     fn tr(&self) -> Tr {
         match self {
             Item::None => Tr::L(vec![Tr::n(0u8)]),
+            Item::Data(d) if d.len() > 2048 => Tr::L(vec![Tr::n(5u8), Tr::n(d.len() as u64), Tr::n(digest(d))]),
             Item::Data(d) => Tr::L(vec![Tr::n(1u8), Tr::b(d)]),
             Item::Trailers(t) => Tr::L(vec![Tr::n(2u8), hm_tr(t)]),
             Item::Err(c, None) => Tr::L(vec![Tr::n(3u8), Tr::L(vec![Tr::n(*c)])]),
@@ -144,6 +159,10 @@ impl Item {
     fn is_err(&self) -> bool {
         matches!(self, Item::Err(..))
     }
+}
+/// the digest of Model/WebServer.v
+fn digest(d: &[u8]) -> u64 {
+    d.iter().fold(7u64, |h, b| (h * 31 + *b as u64 + 1) % 4294967291)
 }
 /// error class from the code and the fixed prefix of the message (never the full text)
 fn classify(code: i32, msg: &str) -> Item {
@@ -251,7 +270,7 @@ fn run_client(evs: &[E]) -> Observed {
     let mut extra: Vec<Item> = vec![];
     let res = catch(std::panic::AssertUnwindSafe(|| {
         let (sb, _) = ScriptBody::new(evs.iter().map(to_ev).collect());
-        let body = CountBody { inner: sb, polls: polls.clone(), ends: ends.clone() };
+        let body = CountBody { inner: sb, polls: polls.clone(), ends: ends.clone(), eos_mode: 0 };
         let seen: Seen = Arc::new(Mutex::new(None));
         let mut svc = GrpcWebClientService::new(Inner { resp: Some(Response::new(body)), seen });
         let (req_body, _) = ScriptBody::<InnerErr>::new(vec![]);
@@ -314,6 +333,90 @@ fn run_client(evs: &[E]) -> Observed {
         items.push(if p.contains("BUSYLOOP") { Item::Busy } else { Item::Panic });
     }
     Observed { items, extra, polls: polls.load(Ordering::SeqCst), ends: ends.load(Ordering::SeqCst) }
+}
+
+/// The response body read by a hyper-like consumer: `is_end_stream()` is asked before the first
+/// poll and after every data frame, and the consumer stops when it answers true.  Afterwards the
+/// body is drained on (what an `is_end_stream() == true` body must not have: more frames).
+fn case_client_hyper(out: &mut Out, kind: &str, evs: &[E], mode: u8, judged: bool) {
+    let polls = Arc::new(AtomicUsize::new(0));
+    let ends = Arc::new(AtomicUsize::new(0));
+    let (sb, _) = ScriptBody::new(evs.iter().map(to_ev).collect());
+    let body = CountBody { inner: sb, polls, ends, eos_mode: mode };
+    let seen: Seen = Arc::new(Mutex::new(None));
+    let mut svc = GrpcWebClientService::new(Inner { resp: Some(Response::new(body)), seen });
+    let (req_body, _) = ScriptBody::<InnerErr>::new(vec![]);
+    let req = Request::builder().version(Version::HTTP_2).uri("http://example.test/pkg.Svc/Method").body(req_body).unwrap();
+    let resp = spin(svc.call(req), 100).expect("response future is ready").unwrap();
+    let mut body = Box::pin(resp.into_body());
+    let per_frame = evs.len() + 10;
+    let mut items: Vec<Item> = vec![];
+    let mut rest: Vec<Item> = vec![];
+    let mut by_eos = false;
+    let next = |body: &mut Pin<Box<GrpcWebCall<CountBody>>>| -> Item {
+        match spin(std::future::poll_fn(|cx| body.as_mut().poll_frame(cx)), per_frame) {
+            Err(()) => Item::Busy,
+            Ok(None) => Item::None,
+            Ok(Some(Ok(f))) => {
+                if f.is_data() {
+                    Item::Data(f.into_data().unwrap().to_vec())
+                } else {
+                    Item::Trailers(f.into_trailers().unwrap())
+                }
+            }
+            Ok(Some(Err(st))) => classify(st.code() as i32, st.message()),
+        }
+    };
+    if body.is_end_stream() {
+        by_eos = true;
+    } else {
+        for _ in 0..100_000 {
+            let it = next(&mut body);
+            let is_data = matches!(it, Item::Data(_));
+            items.push(it);
+            if !is_data {
+                break;
+            }
+            if body.is_end_stream() {
+                by_eos = true;
+                break;
+            }
+        }
+    }
+    if by_eos {
+        for _ in 0..100_000 {
+            let it = next(&mut body);
+            let go = matches!(it, Item::Data(_) | Item::Trailers(_));
+            rest.push(it);
+            if !go {
+                break;
+            }
+        }
+    }
+    let mut oracle = None;
+    let late = rest.iter().filter(|i| matches!(i, Item::Data(_) | Item::Trailers(_))).count();
+    if judged && late > 0 {
+        oracle = Some(format!(
+            "is_end_stream() answered true after {} frame(s) although {} more frame(s) (data / trailers) were still to be yielded: a consumer that honours it loses them",
+            items.len(),
+            late
+        ));
+    }
+    out.hist("eos.client.mode", mode);
+    out.hist("eos.client.stopped_by_is_end_stream", by_eos);
+    out.hist("eos.client.frames_lost_to_is_end_stream", late.min(3));
+    out.push(Case {
+        kind: kind.to_string(),
+        input: json!({"evs": evs.iter().map(ev_json).collect::<Vec<_>>(), "eos_mode": mode}),
+        model: format!("obs_client_hyper {} {}", mode, evs_coq(evs)),
+        impl_obs: Tr::L(vec![
+            Tr::L(items.iter().map(|i| i.tr()).collect()),
+            Tr::bool(by_eos),
+            Tr::L(rest.iter().map(|i| i.tr()).collect()),
+        ]),
+        oracle,
+        nontrivial: !evs.is_empty(),
+    });
 }
 
 // ------------------------------------------------------------------ expectations (the oracle)
@@ -436,11 +539,16 @@ fn oracle(o: &Observed, e: &Expect) -> Option<String> {
             None
         }
         Expect::Boundary { msgs } => {
+            // not "inside a frame": the property demands no error; what the code does (and
+            // c17_webc_no_trailers_frame proves) is: every frame, no trailers, a clean end
             if o.items.iter().any(|i| matches!(i, Item::Trailers(_))) {
                 return Some("trailers yielded although no trailers frame was sent".into());
             }
             if &data != msgs {
                 return Some("message bytes differ".into());
+            }
+            if last != Some(&Item::None) {
+                return Some(format!("a body cut between two frames did not end cleanly: {:?}", last));
             }
             None
         }
@@ -519,7 +627,7 @@ fn case_client(out: &mut Out, kind: &str, evs: &[E], expect: &Expect) {
 fn case_client_request(out: &mut Out, kind: &str, evs: &[E], version: Version) {
     let seen: Seen = Arc::new(Mutex::new(None));
     let (dummy, _) = ScriptBody::new(vec![]);
-    let body = CountBody { inner: dummy, polls: Default::default(), ends: Default::default() };
+    let body = CountBody { inner: dummy, polls: Default::default(), ends: Default::default(), eos_mode: 0 };
     let mut svc = GrpcWebClientService::new(Inner { resp: Some(Response::new(body)), seen: seen.clone() });
     let (req_body, _) = ScriptBody::<InnerErr>::new(evs.iter().map(to_ev).collect());
     let req = Request::builder()
@@ -739,7 +847,7 @@ fn sprinkle(r: &mut Rng, evs: Vec<E>) -> Vec<E> {
 fn all_cut_sets(out: &mut Out, kind: &str, b: &Body) {
     let bytes = b.bytes();
     let n = bytes.len();
-    assert!(n <= 13);
+    assert!(n <= 15);
     for mask in 0u32..(1u32 << (n - 1)) {
         let cuts: Vec<usize> = (1..n).filter(|i| mask >> (i - 1) & 1 == 1).collect();
         case_client(out, kind, &chunks_at(&bytes, &cuts), &b.valid());
@@ -1025,10 +1133,36 @@ fn corpus(out: &mut Out) {
     bb.extend(tframe(&t5));
     case_client(out, "corpus.big_payload", &[E::D(bb[..5].to_vec()), E::D(bb[5..9_005].to_vec()), E::D(bb[9_005..].to_vec())], &Expect::Valid { msgs: big, trailers: t5.clone() });
 
+    // frame lengths >= 65536 (length prefix 00 01 00 00) and inner chunks above 8 KiB (BUFFER_SIZE)
+    for (n, fill) in [(65_536usize, 0x80u8), (70_000, 0), (65_535, 1)] {
+        let msgs = frame(1, &vec![fill; n]);
+        let mut evs = vec![E::D(msgs[..5].to_vec())];
+        let mut at = 0usize;
+        for c in [9_000usize, 20_000, 8_193, usize::MAX] {
+            let take = c.min(n - at);
+            evs.push(E::D(vec![fill; take]));
+            at += take;
+            if at == n {
+                break;
+            }
+            evs.push(E::P);
+        }
+        let tail: Vec<u8> = [frame(0, b"after"), tframe(&t5)].concat();
+        evs.push(E::D(tail));
+        let all: Vec<u8> = [msgs.clone(), frame(0, b"after")].concat();
+        case_client(out, "corpus.big_frame", &evs, &Expect::Valid { msgs: all.clone(), trailers: t5.clone() });
+        // the same, cut off inside the big payload
+        case_client(out, "corpus.big_frame", &evs[..3], &Expect::Truncated { msgs: all });
+    }
+
     // ---- behaviour the property text does not decide (recorded, compared with the model) ----
     // a value that starts with a space loses that space (HTTP/1 optional whitespace)
     let tl = vec![(s("grpc-status"), b"0".to_vec()), (s("x-k"), b" v".to_vec())];
     case_client(out, "observe.value_with_leading_space", &[E::D(tframe(&tl))], &Expect::Observe);
+    for v in [&b"  v"[..], b" ", b"   ", b"\tv", b" \tv", b" a b "] {
+        let tl = vec![(s("grpc-status"), b"0".to_vec()), (s("x-k"), v.to_vec())];
+        case_client(out, "observe.value_with_leading_space", &[E::D(tframe(&tl))], &Expect::Observe);
+    }
     // F-C17h: the last line lacks its CRLF: it is a trailer all the same
     let t5only = vec![(s("grpc-status"), b"5".to_vec())];
     case_client(
@@ -1123,6 +1257,7 @@ fn main() {
         Body { msgs: vec![(0, vec![0x80])], trailers: vec![] },                              // 11 bytes
         Body { msgs: vec![], trailers: vec![(s("k"), b"a b".to_vec())] },                    // 12 bytes
         Body { msgs: vec![(0, b"xyz".to_vec())], trailers: vec![] },                         // 13 bytes
+        Body { msgs: vec![(1, vec![])], trailers: vec![(s("a"), b"1".to_vec())] },            // 15 bytes: message + trailer
     ];
     let n_small = if t { small.len() } else { 2 };
     for b in &small[..n_small] {
@@ -1171,6 +1306,34 @@ fn main() {
     }
     for _ in 0..n_inner {
         inner_events(&mut out, &mut r);
+    }
+    // ---- Body::is_end_stream as a hyper-like consumer uses it --------------------------------
+    let n_eos = if t { 1500 } else { 150 };
+    {
+        // the witness: message and trailers frame in the last chunk of a body that (like hyper's
+        // Incoming) reports is_end_stream() once that chunk has been handed over
+        let hi = frame(0, b"hi");
+        let t0 = vec![(s("grpc-status"), b"5".to_vec())];
+        let one: Vec<u8> = [hi.clone(), tframe(&t0)].concat();
+        case_client_hyper(&mut out, "corpus.F-C17i", &[E::D(one.clone())], 1, true);
+        case_client_hyper(&mut out, "corpus.F-C17i", &[E::D(hi.clone()), E::D(tframe(&t0))], 1, true);
+        case_client_hyper(&mut out, "corpus.F-C17i", &[E::D(one[..9].to_vec()), E::D(one[9..].to_vec())], 1, true);
+        case_client_hyper(&mut out, "corpus.F-C17i", &[], 1, true);
+        case_client_hyper(&mut out, "corpus.F-C17i", &[E::D(tframe(&t0))], 1, true);
+        // the minimal replay of the finding: frame(1, "") and an empty trailers frame in one chunk
+        case_client_hyper(&mut out, "corpus.F-C17i", &[E::D(vec![1, 0, 0, 0, 0, 0x80, 0, 0, 0, 0])], 1, true);
+    }
+    for _ in 0..n_eos {
+        let b = gen_body(&mut r);
+        let bytes = b.bytes();
+        let cuts = random_cuts(&mut r, bytes.len());
+        let evs = chunks_at(&bytes, &cuts);
+        let evs = if r.chance(1, 2) { sprinkle(&mut r, evs) } else { evs };
+        match r.below(4) {
+            0 => case_client_hyper(&mut out, "eos.client_never", &evs, 0, true),
+            1 => case_client_hyper(&mut out, "observe.eos_client_inner_breaks_contract", &evs, 2, false),
+            _ => case_client_hyper(&mut out, "eos.client", &evs, 1, true),
+        }
     }
     // ---- request direction (not part of the property text; tie only) ---------------------------
     for _ in 0..n_req {
